@@ -458,7 +458,8 @@ class Formatter:
 
             return validated
 
-        if parsed["quarter"] is not None:
+        if parsed["quarter"] is not None and validated["month"] is None:
+            # A quarter only stands in for a month that was not given
             if validated["year"] is not None:
                 dt = pendulum.datetime(cast(int, validated["year"]), 1, 1)
             else:
